@@ -66,7 +66,7 @@ pub enum Op {
     Restart,
 }
 
-#[derive(Clone, Debug)]
+#[derive(Clone, Debug, Serialize, Deserialize)]
 pub struct C13Cfg {
     pub oracles: usize,
     pub max_chain: usize,
@@ -159,6 +159,10 @@ impl C13Model {
 impl Model for C13Model {
     type Op = Op;
     type State = C13State;
+
+    fn cfg_json(&self) -> serde_json::Value {
+        serde_json::to_value(&self.cfg).unwrap()
+    }
 
     fn name(&self) -> String {
         format!("chain13(oracles={},L={}{}{})", self.cfg.oracles, self.cfg.max_chain, if self.cfg.streamed { ",streamed" } else { "" }, if self.cfg.restart { ",restart" } else { "" })
@@ -640,4 +644,10 @@ pub fn explore(tier: Tier, wall_s: f64) -> Run13 {
         merge_stats(&mut stats, &st);
     }
     Run13 { stats, found, models }
+}
+
+pub fn replay_ops(v: &serde_json::Value) -> Vec<Vio> {
+    let cfg: C13Cfg = serde_json::from_value(v["cfg"].clone()).expect("chain13 cfg");
+    let ops: Vec<Op> = serde_json::from_value(v["ops"].clone()).expect("chain13 ops");
+    crate::vmc::replay(&C13Model { cfg }, &ops)
 }
